@@ -93,7 +93,28 @@ def gen_cases(rng, tier):
             else:
                 toks.append(t)
         cases.append({'id': 'c13-pipe-%d' % i, 'cfg': cfg, 'hist': toks, 'sub': 'ksim', 'tags': {'kind': 'pipeline'}})
+    # "when the combination ends the override's output keys are released" also when the processing loop sleeps as soon as kanata
+    # lets it: each shape once ticking every millisecond, once blocking whenever allowed
+    from checks.common import loop_pairs
+    lp = []
+    j = 0
+    for roa in ('yes', 'no'):
+        for tbl in ('(lsft a) (lsft 9)', '(lsft a) (b)', '(lctl a) (lalt x)', '(lsft a) (b) (lctl a) (c)'):
+            for hold in (3, 80):
+                cfg = '(defcfg override-release-on-activation %s)\n(defsrc a b lsft lctl)\n(deflayer l0 a b lsft lctl)\n(defoverrides %s)' % (roa, tbl)
+                m = 29 if 'lctl a' in tbl and 'lsft' not in tbl else 42
+                h = ['t3', 'd%d' % m, 't5', 'd30', 't%d' % hold, 'u30', 't20', 'u%d' % m, 't80', 'd48', 't3', 'u48', 't80']
+                lp.append({'id': 'c13-loop-%d' % j, 'cfg': cfg, 'hist': h, 'sub': 'ksim', 'tags': {'kind': 'loop-pair', 'release_on_activation': roa}})
+                j += 1
+    cases += loop_pairs(lp)
     return cases
+
+
+def post(all_results, run_impl, rng, tier, stats):
+    from checks.common import loop_pair_violations
+    v = loop_pair_violations(all_results)
+    stats['loop_pairs'] = sum(1 for c, it, mt in all_results if c.get('loop_mode') == '1')
+    return v
 
 
 def oracle(case, it):
@@ -124,7 +145,7 @@ def nontrivial(case, it):
 
 
 SPEC = {
-    'id': 'C13', 'sub': 'ovr', 'gen_cases': gen_cases, 'nontrivial': nontrivial, 'oracle': oracle,
+    'id': 'C13', 'sub': 'ovr', 'gen_cases': gen_cases, 'nontrivial': nontrivial, 'oracle': oracle, 'post': post,
     'rule': 'override tables of 1-5 entries over 5 non-modifier keys and all 8 modifiers; for each table every ordered key list of '
             'length <= 4 over the keys it mentions (sampled above 120 per length) plus lists of length 2-5 with repeated codes through the real Overrides::override_keys; plus random '
             'press/release histories through the whole pipeline with override-release-on-activation on/off; non-trivial = some key removed / some output',
